@@ -3,6 +3,20 @@
 by tools/seed_confirm.sh) and from tools/seed_results.json (which of /verif's checks caught it; written by tools/seed_matrix.sh)"""
 import json, os, re, sys
 V = os.path.dirname(os.path.dirname(os.path.abspath(__file__)))
+# why the registered checks cannot see a seeded change (written by hand after reading the patch; DESIGN.md section 7)
+WHY = {
+    "C03-C": "the stale reversed copy lives in SubRule::apply (the scan loop between rewrites): whole-rule application does not finish under CBMC (a > b on two segments: > 30 min); the environment kernels are unchanged by the patch",
+    "C04-B": "the leak needs two match attempts of SubRule::input_match_at (state kept across attempts of the scan loop): whole-rule application, out of reach",
+    "C04-D": "needs a second MATCH against an already bound alpha; every harness with two HashMap operations in match_seg_kind exhausts 14 GB under CBMC (measured twice, also with the R6 unwinding policy); only the later USE in an output is decided",
+    "C08-A": "concat_tone: u64::to_string + Vec::dedup exhaust 14 GB even for single-digit tones and with to_string stubbed; the tone clause of C08 is outside the claim",
+    "C08-B": "the empty syllable is produced inside SubRule::substitution (whole-rule application, out of reach); the claimed clause is the feature-bundle invariant",
+    "C08-D": "the empty syllable is produced by a helper of SubRule::substitution reached only through whole-rule application; the claimed clause is the feature-bundle invariant",
+    "C12-D": "Parser::get_spec_env works on the token vector of a concrete rule text: with the text concrete nothing is left for the solver, with it symbolic the lexer/parser do not finish; only the group-letter and optional clauses of C12 are claimed",
+    "C14-B": "`$X > &` is the metathesis arm of SubRule::transform, which exhausts 14 GB under CBMC even for concrete match elements and with Word::clone stubbed; only the per-syllable mechanism of C14 is claimed",
+    "C14-D": "the patch replaces apply_supras' fixed loops by loops whose bounds are computed values (min_len/max_len up to usize::MAX); every harness that reaches apply_supras then runs into the 900 s cap, so the quick check ends INCONCLUSIVE (exit 2) instead of reporting the violation -- not silent, but not a catch",
+    "C16-A": "C16 is not applicable (section 3): the trace loops cannot be driven under CBMC",
+    "C16-B": "C16 is not applicable (section 3): trace_to_string renders words (lazy_static tables, String growth)",
+}
 res = {}
 p = os.path.join(V, "tools", "seed_results.json")
 if os.path.exists(p):
@@ -39,5 +53,8 @@ for d in sorted(os.listdir(os.path.join(V, "seeded"))):
         "commands_run_by_author": sec(r"commands run")[:2500] or old.get("commands_run_by_author", ""),
         "detection": res.get(d, old.get("detection", {})),
     }
+    hit = any(v.get("exit") == 1 and v.get("violations", 0) > 0 for v in meta["detection"].values())
+    if not hit and d in WHY:
+        meta["why_missed"] = WHY[d]
     json.dump(meta, open(mp, "w"), indent=1, ensure_ascii=False)
     print(d, "->", {k: (v.get("exit"), v.get("violations")) for k, v in meta["detection"].items()} if meta["detection"] else "no detection run recorded")
